@@ -154,10 +154,25 @@ func runParseRaw(ty int, in []byte) (r intRes) {
 }
 
 type gen struct {
-	w    *cv.Writer
-	st   *cv.Stats
-	seen map[string]bool
-	r    *cv.Rand
+	w       *cv.Writer
+	st      *cv.Stats
+	seen    map[string]bool
+	sampled map[string]bool
+	r       *cv.Rand
+}
+
+// add writes the case and keeps the first case of every constructor/class as a sample for the evidence
+func (g *gen) add(term string, d desc) {
+	g.w.Add(term, d)
+	k := d.Kind + "/" + d.Class
+	if !g.sampled[k] && len(g.st.Samples) < 40 {
+		g.sampled[k] = true
+		t := term
+		if len(t) > 400 {
+			t = t[:400] + "..."
+		}
+		g.st.Samples = append(g.st.Samples, map[string]string{"class": k, "input": d.Input, "impl": d.Impl, "coq_case": t})
+	}
 }
 
 func (g *gen) distinct(key string, nontrivial bool) {
@@ -219,7 +234,7 @@ func (g *gen) addParse(ty int, in []byte, class string, m *big.Int, e int64) {
 		g.st.ImplFailures = append(g.st.ImplFailures, map[string]interface{}{"what": "integer parse panicked", "ty": ty, "input": printable(in), "input_hex": hex.EncodeToString(in)})
 	}
 	g.distinct(fmt.Sprintf("p%d|%s", ty, in), len(in) > 1)
-	g.w.Add(fmt.Sprintf("CParse %d %s %s %s %d %s", ty, cv.CoqBytes(in), tok, den, r.cls, coqZ(r.val)),
+	g.add(fmt.Sprintf("CParse %d %s %s %s %d %s", ty, cv.CoqBytes(in), tok, den, r.cls, coqZ(r.val)),
 		desc{Kind: "parse", Ty: ty, Input: printable(in), InputHex: hex.EncodeToString(in), Class: class, Denotes: dd, Impl: r.String()})
 	// the assumed json fragment is validated on every json input
 	if ty != 0 && g.r.Intn(4) == 0 {
@@ -229,7 +244,7 @@ func (g *gen) addParse(ty int, in []byte, class string, m *big.Int, e int64) {
 
 func (g *gen) addLex(in []byte) {
 	g.st.Hit("lex")
-	g.w.Add(fmt.Sprintf("CLex %s %s %s", cv.CoqBytes(in), lexOracle(in), lexsOracle(in)),
+	g.add(fmt.Sprintf("CLex %s %s %s", cv.CoqBytes(in), lexOracle(in), lexsOracle(in)),
 		desc{Kind: "lex", Input: printable(in), InputHex: hex.EncodeToString(in), Impl: "encoding/json: " + lexOracle(in)})
 }
 
@@ -299,7 +314,7 @@ func (g *gen) addPrint(ty int, z *big.Int) {
 	back = runParse(ty, out)
 	g.st.Hit(fmt.Sprintf("print:ty%d:bits=%s", ty, bitBucket(z)))
 	g.distinct(fmt.Sprintf("P%d|%s", ty, z), z.BitLen() > 3)
-	g.w.Add(fmt.Sprintf("CPrint %d %s %s %d %s", ty, coqZ(z), cv.CoqBytes(out), back.cls, coqZ(back.val)),
+	g.add(fmt.Sprintf("CPrint %d %s %s %d %s", ty, coqZ(z), cv.CoqBytes(out), back.cls, coqZ(back.val)),
 		desc{Kind: "print", Ty: ty, Input: z.String(), InputHex: hex.EncodeToString(z.Bytes()), Impl: string(out) + " back: " + back.String()})
 }
 
@@ -476,6 +491,12 @@ func runAddr(direct bool, in []byte) (r bytesRes) {
 	var err error
 	if direct {
 		err = a.SetString(string(in))
+		// the constructors are the same parse
+		n1, e1 := ethtypes.NewAddress(string(in))
+		n2, e2 := ethtypes.NewAddressWithChecksum(string(in))
+		if (e1 == nil) != (err == nil) || (e2 == nil) != (err == nil) || (err == nil && (!bytes.Equal(n1[:], a[:]) || !bytes.Equal(n2[:], a[:]))) {
+			return bytesRes{cls: 1, err: "NewAddress/NewAddressWithChecksum differ from SetString"}
+		}
 	} else if json.Valid(in) {
 		err = json.Unmarshal(in, &a)
 	} else {
@@ -512,7 +533,7 @@ func (g *gen) addAddr(direct bool, in []byte, class string, expect int, exp []by
 		g.st.ImplFailures = append(g.st.ImplFailures, map[string]interface{}{"what": "address parse panicked", "input": printable(in), "input_hex": hex.EncodeToString(in)})
 	}
 	g.distinct(fmt.Sprintf("a%v|%s", direct, in), true)
-	g.w.Add(fmt.Sprintf("CAddr %s %s %s %d %s %d %s", coqBool(direct), cv.CoqBytes(in), lexs, r.cls, cv.CoqBytes(r.out), expect, cv.CoqBytes(exp)),
+	g.add(fmt.Sprintf("CAddr %s %s %s %d %s %d %s", coqBool(direct), cv.CoqBytes(in), lexs, r.cls, cv.CoqBytes(r.out), expect, cv.CoqBytes(exp)),
 		desc{Kind: "addr", Direct: direct, Input: printable(in), InputHex: hex.EncodeToString(in), Class: class, Expect: expect, ExpHex: hex.EncodeToString(exp), Impl: r.String()})
 	if !direct && g.r.Intn(4) == 0 {
 		g.addLex(in)
@@ -536,7 +557,7 @@ func (g *gen) addAddrPrint(a []byte) {
 	}
 	g.st.Hit("addrprint")
 	g.distinct("ap|"+string(a), true)
-	g.w.Add(fmt.Sprintf("CAddrPrint %s %s %s %s", cv.CoqBytes(a), cv.CoqBytes([]byte(s0)), cv.CoqBytes([]byte(sc)), cv.CoqBytes([]byte(sp))),
+	g.add(fmt.Sprintf("CAddrPrint %s %s %s %s", cv.CoqBytes(a), cv.CoqBytes([]byte(s0)), cv.CoqBytes([]byte(sc)), cv.CoqBytes([]byte(sp))),
 		desc{Kind: "addrprint", Input: hex.EncodeToString(a), InputHex: hex.EncodeToString(a), Impl: s0 + " " + sc + " " + sp})
 }
 
@@ -558,10 +579,22 @@ func runBytes(in []byte) (r bytesRes) {
 		return bytesRes{cls: 1, err: "HexBytesPlain and HexBytes0xPrefix disagree"}
 	}
 	if e1 != nil {
+		var str string
+		if json.Unmarshal(in, &str) == nil {
+			if _, e := ethtypes.NewHexBytes0xPrefix(str); e == nil {
+				return bytesRes{cls: 0, out: []byte("NewHexBytes0xPrefix accepted what UnmarshalJSON rejected")}
+			}
+		}
 		return bytesRes{cls: 1, err: e1.Error()}
 	}
 	if !bytes.Equal(h, h0) {
 		return bytesRes{cls: 1, err: "HexBytesPlain and HexBytes0xPrefix disagree"}
+	}
+	var str string
+	if json.Unmarshal(in, &str) == nil {
+		if n, e := ethtypes.NewHexBytes0xPrefix(str); e != nil || !bytes.Equal(n, h) {
+			return bytesRes{cls: 1, err: "NewHexBytes0xPrefix differs from UnmarshalJSON"}
+		}
 	}
 	return bytesRes{cls: 0, out: append([]byte{}, h...)}
 }
@@ -573,7 +606,7 @@ func (g *gen) addBytes(in []byte, class string, expect int, exp []byte) {
 		g.st.ImplFailures = append(g.st.ImplFailures, map[string]interface{}{"what": "hex bytes parse panicked", "input": printable(in), "input_hex": hex.EncodeToString(in)})
 	}
 	g.distinct("b|"+string(in), len(in) > 2)
-	g.w.Add(fmt.Sprintf("CBytes %s %s %d %s %d %s", cv.CoqBytes(in), lexsOracle(in), r.cls, cv.CoqBytes(r.out), expect, cv.CoqBytes(exp)),
+	g.add(fmt.Sprintf("CBytes %s %s %d %s %d %s", cv.CoqBytes(in), lexsOracle(in), r.cls, cv.CoqBytes(r.out), expect, cv.CoqBytes(exp)),
 		desc{Kind: "bytes", Input: printable(in), InputHex: hex.EncodeToString(in), Class: class, Expect: expect, ExpHex: hex.EncodeToString(exp), Impl: r.String()})
 }
 
@@ -592,7 +625,7 @@ func (g *gen) addBytesPrint(h []byte) {
 	}
 	g.st.Hit(fmt.Sprintf("bytesprint:len=%s", lenBucket(len(h))))
 	g.distinct("bp|"+string(h), len(h) > 0)
-	g.w.Add(fmt.Sprintf("CBytesPrint %s %s %s", cv.CoqBytes(h), cv.CoqBytes([]byte(sp)), cv.CoqBytes([]byte(s0))),
+	g.add(fmt.Sprintf("CBytesPrint %s %s %s", cv.CoqBytes(h), cv.CoqBytes([]byte(sp)), cv.CoqBytes([]byte(s0))),
 		desc{Kind: "bytesprint", Input: cv.Compress(h).Describe(), InputHex: hex.EncodeToString(h), Impl: "len " + fmt.Sprint(len(sp))})
 }
 
@@ -627,14 +660,14 @@ func (g *gen) addLib(text string) {
 		if !ok {
 			i = new(big.Int)
 		}
-		g.w.Add(fmt.Sprintf("CLibInt %s %s %s", cv.CoqBytes(in), coqBool(ok), coqZ(i)),
+		g.add(fmt.Sprintf("CLibInt %s %s %s", cv.CoqBytes(in), coqBool(ok), coqZ(i)),
 			desc{Kind: "libint", Input: printable(in), InputHex: hex.EncodeToString(in), Impl: fmt.Sprintf("big.Int.SetString(s,0): ok=%v %s", ok, short(i.String()))})
 		g.st.Hit(fmt.Sprintf("lib:int:ok=%v", ok))
 	}()
 	func() {
 		defer func() { recover() }()
 		_, _, err := big.ParseFloat(text, 10, 256, big.ToNearestEven)
-		g.w.Add(fmt.Sprintf("CLibFloat %s %s", cv.CoqBytes(in), coqBool(err == nil)),
+		g.add(fmt.Sprintf("CLibFloat %s %s", cv.CoqBytes(in), coqBool(err == nil)),
 			desc{Kind: "libfloat", Input: printable(in), InputHex: hex.EncodeToString(in), Impl: fmt.Sprintf("big.ParseFloat(s,10,256): err=%v", err)})
 		g.st.Hit(fmt.Sprintf("lib:float:ok=%v", err == nil))
 	}()
@@ -652,7 +685,7 @@ func (g *gen) addLib(text string) {
 		if (ok && (rt.Num().BitLen() > 20000 || rt.Denom().BitLen() > 20000)) || (tooBig(text) && !rejectsEarly(in)) {
 			return // the model would have to expand a huge power inside Coq
 		}
-		g.w.Add(fmt.Sprintf("CLibRat %s %s %s %s", cv.CoqBytes(in), coqBool(ok), coqBool(isint), coqZ(num)),
+		g.add(fmt.Sprintf("CLibRat %s %s %s %s", cv.CoqBytes(in), coqBool(ok), coqBool(isint), coqZ(num)),
 			desc{Kind: "librat", Input: printable(in), InputHex: hex.EncodeToString(in), Impl: fmt.Sprintf("big.Rat.SetString(s): ok=%v isInt=%v %s", ok, isint, short(num.String()))})
 		g.st.Hit(fmt.Sprintf("lib:rat:ok=%v:int=%v", ok, isint))
 	}()
@@ -777,7 +810,7 @@ func main() {
 	logrus.SetOutput(io.Discard) // BigIntegerFromString logs every rejected text
 	header := "From Coq Require Import String List NArith ZArith Uint63.\nFrom FFS Require Import Base.Bytes Base.Lit EthTypes.Run.\nImport ListNotations.\nOpen Scope string_scope. Open Scope N_scope."
 	st := cv.NewStats()
-	g := &gen{w: cv.NewWriter(*out, "C19", header, "case", "mismatches", 16), st: st, seen: map[string]bool{}, r: cv.NewRand(19)}
+	g := &gen{w: cv.NewWriter(*out, "C19", header, "case", "mismatches", 16), st: st, seen: map[string]bool{}, sampled: map[string]bool{}, r: cv.NewRand(19)}
 
 	if *replay != "" {
 		raw, err := os.ReadFile(*replay)
@@ -983,7 +1016,7 @@ func main() {
 			bad[p] = "gGzZ xX_-:\x00/@`"[r.Intn(14)]
 			g.addAddr(true, bad, "nonhex", 2, nil)
 			g.addAddr(false, []byte(`"0x`+string(bad[:39])+`g"`), "nonhex", 2, nil)
-			g.addAddr(true, []byte("0X"+h), "prefix-0X", 2, nil)
+			g.addAddr(true, []byte("0X"+h), "prefix-0X", 0, nil)
 			g.addAddr(true, []byte("0x0x"+h), "prefix-twice", 2, nil)
 			g.addAddr(true, []byte(" 0x"+h), "space", 2, nil)
 			g.addAddr(true, []byte("0x"+h+" "), "space", 2, nil)
@@ -1032,7 +1065,7 @@ func main() {
 			bad := []byte(h)
 			bad[r.Intn(len(bad))] = "gGzZ xX_-:/@`"[r.Intn(13)]
 			g.addBytes([]byte(`"`+pre+string(bad)+`"`), "nonhex", 2, nil)
-			g.addBytes([]byte(`"0X`+h+`"`), "prefix-0X", 2, nil)
+			g.addBytes([]byte(`"0X`+h+`"`), "prefix-0X", 0, nil)
 		}
 	}
 	for _, j := range []string{`null`, `""`, `"0x"`, `"0"`, `"0x0"`, `"x"`, `"0x0x00"`, `12`, `true`, `{}`, `["00"]`, `"`, ``, `"00"`, ` "00" `, `"00" x`, `"0xg"`, `"0x0g"`, `"g0"`} {
@@ -1045,12 +1078,6 @@ func main() {
 	}
 	st.Evaluations = g.w.Count()
 	st.Rule = "integers 0,1,2^k-1,2^k,2^k+1 (k in 8,16,31,32,53,63,64,128,255,256,260), 10^k, random 1..300-bit and their negatives, each written in canonical decimal, 0x-hex (lower/upper/mixed, leading zeros), plain JSON number, exponent forms (fraction exactly consumed / one digit too many / trailing zeros in the exponent / compensated and uncompensated negative exponents), fractional texts (.0, .000, .5, a 1 beyond 256-bit precision) through BigIntegerFromString, HexInteger and HexUint64 (JSON string and JSON number); random valid decimal/exponent texts with their exact value; a fixed list of malformed texts and random texts over the numeric alphabet (also run through math/big directly to validate the model of SetString/ParseFloat/Rat.SetString); addresses (EIP-55 vectors, letters-only, digits-only, random) in 3 casings x 2 prefixes, length 19/21, odd, non-hex, other prefixes; byte strings of length 0..1024 in 3 casings x 2 prefixes, odd and non-hex. distinct = distinct (entry point, input); non-trivial = more than one character / more than 3 bits"
-	st.Samples = append(st.Samples,
-		`CParse 1 "\"1.8446744073709551616e19\"" (OStr ...) (Some (18446744073709551616, 0)) 0 18446744073709551616`,
-		`CParse 2 "1.000000000000000000000000000000000000000000000000000000000000000000000000000000001" (ONum ...) (Some (10^81+1, -81)) 1 0`,
-		`CAddr false "\"0x5aAeb6053F3E94C9b9A09f33669435E7Ef1BeAed\"" ... 0 <20 bytes> 1 <20 bytes>`,
-		`CAddrPrint <20 bytes> "0x5aaeb..." "0x5aAeb6053F3E94C9b9A09f33669435E7Ef1BeAed" "5aaeb..."`,
-		`CLibInt "0_1" true 1`)
 	if err := st.Write(filepath.Join(*out, "stats_C19.json")); err != nil {
 		panic(err)
 	}
